@@ -44,6 +44,9 @@ func run(c *hc.Ctx) {
 	if sel("tu") {
 		genTU(c)
 	}
+	if sel("cm") {
+		genCM(c)
+	}
 	if sel("tj") {
 		genTJ(c)
 	}
@@ -264,15 +267,21 @@ func genWidths(c *hc.Ctx) []int {
 
 func genW(c *hc.Ctx) {
 	mf := newMutFont("Dynalight-Regular.otf")
-	mf.f.SFNT.Head.UnitsPerEm = 1000 // f = 1: widths are the advances themselves
 	for it := 0; it < c.N; it++ {
-		ws := genWidths(c)
-		if len(ws) > mf.n {
-			ws = ws[:mf.n]
+		advs := genWidths(c)
+		if len(advs) > mf.n {
+			advs = advs[:mf.n]
 		}
-		for g, w := range ws {
-			mf.f.SFNT.Hmtx.HMetrics[g].AdvanceWidth = uint16(w)
+		// units per em: 1000 makes the widths the advances themselves; the others (1000/upm exact in
+		// binary) exercise int(f*adv+0.5)
+		upm := []int{1000, 1000, 2048, 1024, 2000, 500, 4096}[c.Intn(7)]
+		mf.f.SFNT.Head.UnitsPerEm = uint16(upm)
+		ws := make([]int, len(advs))
+		for g, a := range advs {
+			mf.f.SFNT.Hmtx.HMetrics[g].AdvanceWidth = uint16(a)
+			ws[g] = (2000*a + upm) / (2 * upm) // round half up, from the definition
 		}
+		c.Count(fmt.Sprintf("w:upm %d", upm))
 		var out []byte
 		var ref int
 		if msg := hc.Try(func() { out, _, ref = pdf.VerifC18WriteFont(mf.f, seqIDs(len(ws)), false, c.Bool(), false) }); msg != "" {
@@ -324,6 +333,8 @@ func genW(c *hc.Ctx) {
 		c.Case(fmt.Sprintf("WM %d %s %s", len(ws), joinInts(ws), canon), "=", "ok")
 		// Lean's §9.7.4.3 reader on the real output gives the widths back
 		c.Case(fmt.Sprintf("WDEC %d %s", len(ws), canon), "=", joinInts(ws))
+		// advances -> widths -> W in the model (fontW) = the real font object
+		c.Case(fmt.Sprintf("WFM %d %d %s %s", upm, len(advs), joinInts(advs), canon), "=", "ok")
 		if it == 0 {
 			c.Sample(fmt.Sprintf("W %v -> %s", ws, canon))
 		}
@@ -453,6 +464,24 @@ func genTU(c *hc.Ctx) {
 				c.Count("tu:has-unmapped-glyph(U+0000)")
 				break
 			}
+		}
+		// branches of the modelled builder reached by this input
+		prev := 0xFFFD
+		for _, u := range us {
+			v := u
+			if 0x10000 <= u && u <= 0x10FFFF {
+				w := u - 0x10000
+				v = (0xD800+(w>>10)&0x3FF)<<16 + 0xDC00 + w&0x3FF
+			}
+			switch {
+			case v == prev+1 && v&0xFF == 0:
+				c.Count("tu:branch run closed at low byte 00")
+			case v == prev+1:
+				c.Count("tu:branch run extended")
+			default:
+				c.Count("tu:branch new run")
+			}
+			prev = v
 		}
 		c.Distinct("tu " + joinInts(us))
 		// real builder = model builder (output pinned up to the entry order inside each section)
@@ -609,6 +638,7 @@ func genTJ(c *hc.Ctx) {
 			switch codes[i] & 0xFF {
 			case '\n', '\r', '\t', '\b', '\f', '(', ')', '\\':
 				c.Count("tj:escaped-byte")
+				c.Count(fmt.Sprintf("tj:branch escape of byte 0x%02X", codes[i]&0xFF))
 			}
 			if codes[i]>>8 == '(' || codes[i]>>8 == ')' || codes[i]>>8 == '\\' {
 				c.Count("tj:escaped-byte")
@@ -616,6 +646,63 @@ func genTJ(c *hc.Ctx) {
 		}
 		if bad {
 			continue
+		}
+		// the array as a whole: bytes = model (exact factor), Lean's 9.4.3 reading = the Go reading,
+		// Lean's 7.3.4.2 reader on every raw chunk = the code bytes
+		var canon, readback []string
+		for _, e := range arr {
+			switch v := e.(type) {
+			case pStr:
+				canon = append(canon, "S", strconv.Itoa(len(v)/2))
+				for k := 0; k+1 < len(v); k += 2 {
+					canon = append(canon, strconv.Itoa(int(v[k])<<8|int(v[k+1])))
+				}
+			case float64:
+				canon = append(canon, "N", strconv.FormatInt(int64(v), 10))
+			}
+		}
+		readback = append(readback, "0")
+		for i := range codes {
+			readback = append(readback, strconv.Itoa(codes[i]), strconv.FormatInt(int64(adj[i]), 10))
+		}
+		c.Case("TJR "+strings.Join(canon, " "), "=", strings.Join(readback, " "))
+		if t.exact && len(s) < 1500 {
+			var line strings.Builder
+			fmt.Fprintf(&line, "TJB %d", upm)
+			for i := range codes {
+				fmt.Fprintf(&line, " %d %d", codes[i], dxs[i])
+			}
+			bs := make([]string, len(s))
+			for i := 0; i < len(s); i++ {
+				bs[i] = strconv.Itoa(int(s[i]))
+			}
+			c.Case(line.String(), "=", strings.Join(bs, " "))
+			c.Count("tj:whole-array bytes compared")
+		}
+		for ci, raw := range rawChunks(s) {
+			if ci >= 6 {
+				break
+			}
+			// raw = bytes after '(' up to the end of the output; the reader must stop at the chunk's ')'
+			dec, restLen, ok := goReadLit(raw)
+			want := "unterminated"
+			if ok {
+				ds := make([]string, len(dec))
+				for i, b := range dec {
+					ds[i] = strconv.Itoa(int(b))
+				}
+				want = strings.TrimSpace(strings.Join(ds, " ") + " | " + strconv.Itoa(restLen))
+			}
+			if len(raw) > 400 {
+				raw = raw[:400] // the reader only needs the chunk; keep lines short
+				continue
+			}
+			rs := make([]string, len(raw))
+			for i := 0; i < len(raw); i++ {
+				rs[i] = strconv.Itoa(int(raw[i]))
+			}
+			c.Case("LIT "+strings.Join(rs, " "), "=", want)
+			c.Count("tj:literal chunks read by Lean")
 		}
 		for i, dx := range dxs {
 			e := adj[i]
@@ -850,6 +937,151 @@ func genPen(c *hc.Ctx) {
 			if w2 != tw2 || math.Abs(w2-rf.MmPerEm*float64(x)) > 1e-9*(1+math.Abs(w2)) {
 				failK(c, "topath-width-vs-textwidth", fmt.Sprintf("ToPath width %v, TextWidth %v, advances %v", w2, tw2, rf.MmPerEm*float64(x)), map[string]any{"font": f.Name(), "text": str, "size": rf.Size})
 			}
+		}
+	}
+}
+
+// rawChunks returns, for every `(` that opens a literal string in a TJ array, the bytes after it
+// (to the end of s). Strings are found by skipping escaped bytes.
+func rawChunks(s string) []string {
+	var out []string
+	depth := 0
+	for i := 0; i < len(s); i++ {
+		switch s[i] {
+		case '\\':
+			i++
+		case '(':
+			if depth == 0 {
+				out = append(out, s[i+1:])
+			}
+			depth++
+		case ')':
+			if depth > 0 {
+				depth--
+			}
+		}
+	}
+	return out
+}
+
+// goReadLit: the harness's own literal-string reader (pLexer) applied to "(" + raw.
+func goReadLit(raw string) ([]byte, int, bool) {
+	l := &pLexer{b: []byte("(" + raw)}
+	v, err := l.next()
+	if err != nil {
+		return nil, 0, false
+	}
+	str, ok := v.(pStr)
+	if !ok {
+		return nil, 0, false
+	}
+	return []byte(str), len(l.b) - l.pos, true
+}
+
+// ---------------------------------------------------------------------------------------------
+// (i) CIDToGIDMap and code -> glyph, through the real getFont/Get/writeFont (fonts not subsetted)
+
+func genCM(c *hc.Ctx) {
+	f := loadFont("DejaVuSerif.ttf")
+	ng := int(f.SFNT.NumGlyphs())
+	for it := 0; it < c.N/2; it++ {
+		n := 1 + c.Intn(12)
+		if c.Chance(0.3) {
+			n = 20 + c.Intn(300)
+		}
+		h := make([]uint16, n)
+		for i := range h {
+			switch {
+			case c.Chance(0.05):
+				h[i] = 0
+			case i > 0 && c.Chance(0.25):
+				h[i] = h[c.Intn(i)]
+			case c.Chance(0.3):
+				h[i] = uint16(c.Intn(300)) // low byte and high byte classes
+			default:
+				h[i] = uint16(c.Intn(ng))
+			}
+		}
+		var out []byte
+		var codes []uint16
+		var ref int
+		if msg := hc.Try(func() { out, codes, ref = pdf.VerifC18WriteFont(f, h, false, c.Bool(), false) }); msg != "" {
+			failK(c, "panic:writeFont", msg, map[string]any{"glyphs": h})
+			continue
+		}
+		fi, err := fontFromHook(out, ref)
+		if err != nil || !fi.HasMap {
+			failK(c, "cidtogid-unreadable", fmt.Sprint("no readable CIDToGIDMap: ", err), map[string]any{"glyphs": h})
+			continue
+		}
+		c.Evals++
+		// IDs in code order, from the codes the real subsetter returned
+		maxc := 0
+		for _, cd := range codes {
+			if int(cd) > maxc {
+				maxc = int(cd)
+			}
+		}
+		ids := make([]int, maxc+1)
+		for i, cd := range codes {
+			ids[cd] = int(h[i])
+		}
+		shown := make([]string, len(h))
+		for i, cd := range codes {
+			if int(cd) < len(fi.CIDToGID) {
+				shown[i] = strconv.Itoa(int(fi.CIDToGID[cd]))
+				if fi.CIDToGID[cd] != h[i] {
+					failK(c, "glyph-mismatch", fmt.Sprintf("Get(%d) returned code %d, CIDToGIDMap[%d] = %d", h[i], cd, cd, fi.CIDToGID[cd]), map[string]any{"glyphs": h})
+				}
+			} else {
+				shown[i] = "x"
+				failK(c, "glyph-mismatch", fmt.Sprintf("code %d beyond the CIDToGIDMap (%d entries)", cd, len(fi.CIDToGID)), map[string]any{"glyphs": h})
+			}
+		}
+		raw := make([]string, len(fi.MapRaw))
+		for i, b := range fi.MapRaw {
+			raw[i] = strconv.Itoa(int(b))
+		}
+		c.Count("cm:glyphs " + bucket(n))
+		c.Distinct("cm " + joinInts(h))
+		// the stream bytes = the model's, for the real subsetter's glyph list
+		c.Case("CM "+joinInts(ids), "=", strings.Join(raw, " "))
+		// end to end: model subsetter + model map shows, for every call of the history, the glyph asked for
+		// = what the real code's code selects through the real stream
+		c.Case("CG 0 "+joinInts(h), "=", strings.Join(shown, " "))
+		if it%3 == 0 {
+			// subsetting on: the code is the glyph index of the embedded program; observe which source glyph
+			// sits there by comparing outlines and advances with a pristine copy
+			var out2 []byte
+			var codes2 []uint16
+			var ref2 int
+			f2 := loadFont("DejaVuSerif.ttf")
+			if msg := hc.Try(func() { out2, codes2, ref2 = pdf.VerifC18WriteFont(f2, h, true, c.Bool(), false) }); msg != "" {
+				failK(c, "panic:writeFont", msg, map[string]any{"glyphs": h, "subset": true})
+				continue
+			}
+			fi2, err := fontFromHook(out2, ref2)
+			if err != nil || fi2.Program == nil || fi2.HasMap {
+				failK(c, "font-program", fmt.Sprint("subset font object unreadable: ", err), map[string]any{"glyphs": h, "subset": true})
+				continue
+			}
+			shown2 := make([]string, len(h))
+			for i, cd := range codes2 {
+				shown2[i] = strconv.Itoa(int(h[i]))
+				if h[i] == 0 {
+					c.Count("cm:.notdef (emptied by the subsetter, not compared)")
+					continue
+				}
+				if why := compareGlyph(f.SFNT, h[i], fi2.Program, int(cd)); why != "" {
+					shown2[i] = "x"
+					failK(c, "glyph-mismatch", fmt.Sprintf("subset: Get(%d) returned code %d, embedded glyph %d: %s", h[i], cd, cd, why), map[string]any{"glyphs": h, "subset": true})
+				}
+			}
+			c.Count("cm:subset program compared")
+			c.Case("CG 1 "+joinInts(h), "=", strings.Join(shown2, " "))
+		}
+		if it == 0 {
+			c.Sample(fmt.Sprintf("CM %v -> %d bytes", h, len(fi.MapRaw)))
 		}
 	}
 }
